@@ -17,6 +17,7 @@ MODULES = {
     "C03": ("lockstep", "run_c03"),
     "C05": ("c05", "run"),
     "C07": ("c07", "run"),
+    "C11": ("c11", "run"),
     "C12": ("c12", "run"),
     "C17": ("lockstep", "run_c17"),
     "C18": ("c18", "run"),
